@@ -149,6 +149,7 @@ type World struct {
 	adminEvery int
 	restricted bool // Opts.Types named a subset of the data types
 	Side       map[string]bool // root uuids of side repos created by admin steps and not yet deleted
+	sideOrder  []string
 	tag        string
 	Extra      map[string]bool // extra keyvalue instances currently alive
 	nextra     int
@@ -1161,11 +1162,13 @@ func (wd *World) adminStep() (string, error) {
 	// side repos: whole repos created next to the workload's own and deleted again (the deletion removes the repo record,
 	// the id-map entries of its versions and, asynchronously, its data)
 	if y := wd.R.Intn(5); y < 2 {
+		// in creation order (uuids are random: sorting by them would make the choice differ from run to run)
 		var sides []string
-		for u := range wd.Side {
-			sides = append(sides, u)
+		for _, u := range wd.sideOrder {
+			if wd.Side[u] {
+				sides = append(sides, u)
+			}
 		}
-		sort.Strings(sides)
 		if len(sides) > 0 && wd.R.Intn(2) == 0 {
 			u := sides[wd.R.Intn(len(sides))]
 			err := wd.W.API("rpc.repo_delete", map[string]string{"uuid": u}, nil)
@@ -1195,6 +1198,7 @@ func (wd *World) adminStep() (string, error) {
 			wd.Side = map[string]bool{}
 		}
 		wd.Side[u] = true
+		wd.sideOrder = append(wd.sideOrder, u)
 		// (a compound step: a worker that dies anywhere inside it must surface as an error of THIS step)
 		more := wd.R.Intn(2) == 0
 		if err := wd.C.NewInstance(u, "keyvalue", "skv", nil); err != nil {
